@@ -26,6 +26,7 @@ func init() {
 func runC13(c *Ctx) {
 	wholeSliceToStream(c, c.P, "R4", "transports/obfs3:(*obfs3Conn).Write")
 	wholeSliceFromStream(c, c.P, "R4", "transports/obfs3:(*obfs3Conn).Read")
+	obfs3RewireOnAnyRead(c, c.P, "R4")
 	noBackgroundConnWrites(c, c.P, newConnIO(c.P), "R4", "transports/obfs3")
 	if !importing {
 		importObls(c, "C10", runC10, "X10", func(k string) bool { return containsAny(k, "transports/obfs3", "common/uniformdh") })
@@ -686,4 +687,41 @@ func bigObj(p *Prog, v ssa.Value) ssa.Value {
 		v = c.Common().Args[0]
 	}
 	return v
+}
+
+// obfs3RewireOnAnyRead: the bytes that followed the peer's magic sit in a temporary buffer; whichever Read finds
+// that buffer empty switches the stream reader over to the connection.  If the switch were made only by the Read
+// that found the magic, data arriving in the same segment as the magic would leave the reader on the (soon
+// empty) buffer for ever: every later Read reports EOF.
+func obfs3RewireOnAnyRead(c *Ctx, p *Prog, rule string) {
+	const key = "transports/obfs3:(*obfs3Conn).Read"
+	ob := c.Obl(rule, key+"#rewire-on-any-read", "the switch from the handshake buffer to the connection (rxBuf = nil) is reachable on every Read, not only on the one that found the magic: no condition on the way tests rxMagic")
+	fn := p.Func(key)
+	if fn == nil {
+		ob.Undecide("not found")
+		return
+	}
+	ff := p.Facts(fn)
+	n := 0
+	bad := ""
+	for _, s := range p.Stores("transports/obfs3.obfs3Conn", "rxBuf") {
+		if s.Fn != fn || !isNilConst(unspill(s.Val)) {
+			continue
+		}
+		n++
+		for _, f := range ff.NC(s.Instr.Block()) {
+			x, _, ok := FactNilCmp(f)
+			if ok && isFieldLoad(unspill(x), "transports/obfs3.obfs3Conn", "rxMagic") {
+				bad = "the switch at " + p.InstrPos(s.Instr) + " happens only under a test of rxMagic (the Read that found the magic)"
+			}
+		}
+	}
+	switch {
+	case n == 0:
+		ob.Violate("Read never abandons the handshake buffer")
+	case bad != "":
+		ob.Violate("%s", bad)
+	default:
+		ob.HoldNT("%d switch site(s), independent of rxMagic", n)
+	}
 }
